@@ -195,7 +195,40 @@ func (h *history) step() bool {
 	var op string
 	ctx := context.Background()
 	pan, val, st := fw.Try(func() {
-		switch k := r.Intn(15); k {
+		switch k := r.Intn(16); k {
+		case 15: // text codecs over a buffer the caller keeps using: the codec types are []byte, a conversion does not copy
+			text, _ := randomText(r, 120)
+			if r.Chance(1, 3) { // the plain 7-bit case real traffic mostly is
+				text = string(nonNulASCII(r, r.Range(1, 80)))
+			}
+			which := r.Intn(5)
+			name := []string{"Latin1", "UCS2", "GB18030", "GSM7Unpacked", "GSM7Packed"}[which]
+			op = "text-codec-on-caller-buffer " + name
+			mk := func(b []byte) datacoding.Codec {
+				switch which {
+				case 0:
+					return datacoding.Latin1(b)
+				case 1:
+					return datacoding.UCS2(b)
+				case 2:
+					return datacoding.GB18030(b)
+				case 3:
+					return datacoding.GSM7Unpacked(b)
+				}
+				return datacoding.GSM7Packed(b)
+			}
+			in := []byte(text)
+			enc, err := mk(in).Encode()
+			if err == nil {
+				h.keepBytes("codec.Encode(caller buffer) "+name, enc)
+				wire := append([]byte(nil), enc...)
+				dec, derr := mk(wire).Decode()
+				if derr == nil {
+					h.keepBytes("codec.Decode(caller buffer) "+name, dec)
+				}
+				scribble(wire)
+			}
+			scribble(in)
 		case 12: // an encode that must fail: the error path gives pooled buffers back too
 			cands := oversizeCandidates(h.ts)
 			oc := cands[r.Intn(len(cands))]
